@@ -201,6 +201,13 @@ def hypOp (j : Json) : R Json := do
       ("T_minus_iso", ofMat (Tm - iso)),
       ("orth", ofMat (Tm.transpose * Tm - 1))]
 
+/-- `utils.broadcast_match(a1, a2, k)` on flat composites: the units travel as opaque JSON values -/
+def broadcastMatchOp (j : Json) : R Json := do
+  let a1 ← arr (← field j "a1")
+  let a2 ← arr (← field j "a2")
+  let r := broadcastMatch a1.toList a2.toList
+  return Json.arr #[.arr r.1.toArray, .arr r.2.toArray]
+
 def byField (hq : Handler) (hqi : Handler) : Handler := fun j => do
   match (← strf j "field") with
   | "Q" => hq j
@@ -217,5 +224,6 @@ def ops : List (String × Handler) :=
    ("c16.intersect", byField (intersectOp (K := ℚ)) (intersectOp (K := QI))),
    ("c16.diag", byField (diagOp (K := ℚ)) (diagOp (K := QI))),
    ("c16.eigvec", eigvecOp),
-   ("c16.hyp", hypOp)]
+   ("c16.hyp", hypOp),
+   ("c16.broadcast_match", broadcastMatchOp)]
 end GT.Driver.C16
